@@ -74,5 +74,7 @@ with mrawgraph := MRawGraph (rinputs rinits : list string) (rbody : list mraw) (
 
 Record mfunction := { f_domain : string; f_name : string; f_inputs : list string; f_outputs : list string;
                       f_attrs : list string; f_body : list mnode; f_imports : list (string * nat);
-                      f_bodyid : nat  (* ghost: id of the body graph in the program; not rendered *) }.
+                      f_bodyid : nat  (* ghost: id of the body graph in the program; not rendered *);
+                      f_vals : string (* digest of the attribute VALUES inside the body: not rendered, but part of what makes two
+                                         FunctionProtos equal or different *) }.
 Record model := { mmain : mgraph; mimports : list (string * nat); mfunctions : list mfunction }.
